@@ -1287,6 +1287,27 @@ class Environment:
 ####################
 
 
+def _jaxprs_contain_sample_site(params: dict) -> bool:
+    """Whether any (closed) Jaxpr among equation params holds a sample site, at any depth."""
+
+    def in_jaxpr(jaxpr) -> bool:
+        for eqn in jaxpr.eqns:
+            primitive, _ = PPPrimitive.unwrap(eqn.primitive)
+            if primitive in (sample_p, adev_sample_p):
+                return True
+            if _jaxprs_contain_sample_site(eqn.params):
+                return True
+        return False
+
+    for value in params.values():
+        for item in value if isinstance(value, (tuple, list)) else (value,):
+            inner = getattr(item, "jaxpr", item)
+            if isinstance(inner, Jaxpr) and in_jaxpr(inner):
+                return True
+    return False
+
+
+
 @dataclass
 class Seed:
     """Interpreter that eliminates probabilistic primitives with explicit randomness.
@@ -1404,6 +1425,17 @@ class Seed:
                 )
 
             else:
+                # A higher-order primitive this interpreter does not rewrite
+                # (remat, custom_jvp, ...): binding it as is would run its sample
+                # sites with the key baked in at trace time, ignoring `self.key`.
+                if _jaxprs_contain_sample_site(eqn.params):
+                    raise LoweringSamplePrimitiveToMLIRException(
+                        f"`seed` does not interpret the `{eqn.primitive}` primitive, "
+                        "which contains `pjax.sample_p` sites: they would silently "
+                        "use a PRNG key baked in at trace time instead of the key "
+                        "passed to the seeded function. Move the sampling out of "
+                        "this construct, or apply `seed` inside it."
+                    )
                 outvals = eqn.primitive.bind(*args, **params)
 
             if not eqn.primitive.multiple_results:
